@@ -129,6 +129,8 @@ class Sim:
 
     # ------------------------------------------------------------ recording
     def ev(self, *e) -> None:
+        if self.dead:
+            return      # threads unwinding after the run is over record nothing (their order is not scheduled)
         self.events.append(e)
 
     def fired(self, kind: str, n: int = 1) -> None:
